@@ -2470,6 +2470,8 @@ def explore_c08(prop, pd, tier, rng, corpus_cases):
     # case of its letters flipped, with one byte changed, sent to the second handled address, over the other transport): caches
     # keyed by a normalisation of the request show up there
     sw = World(rng, selfmode=rng.chance(1, 2), denymode=False)
+    if sw.self is not None:
+        sw.self = [sw.my4, sw.my6, sw.my4b, sw.my6b]      # (every probe is addressed to a handled address)
     swcfg = ('C', sw.cfg())
 
     def uframe(v6, src, dst, mac, sp, dp, pl):
@@ -2547,6 +2549,26 @@ def explore_c08(prop, pd, tier, rng, corpus_cases):
             cases.append({'ops': [swcfg, ('X',)] + [('F', x) if isinstance(x, (bytes, bytearray)) else x for x in vh] + [('F', probe)], 'tags': ['stateless-probe', 'probe:' + kind]})
             ids.append(len(cases) - 1)
         groups.append((ids, probe, swcfg))
+    # deterministically: last fragments of valid requests (STUN, DNS, HTTP over UDP/IPv4) with first fragments of the same and of
+    # another flow in the histories
+    fw = World(rng, selfmode=False, denymode=False)
+    fwcfg = ('C', fw.cfg())
+    for pl, dp in ((b'\x00\x01\x00\x08' + bytes(range(16)) + b'\x00\x03\x00\x04\x00\x00\x00\x02', 3478),
+                   (struct.pack('>HHHHHH', 7, 0x0100, 1, 0, 0, 0) + b'\x03www\x07example\x03com\x00' + struct.pack('>HH', 1, 1), 53),
+                   (b'GET /index.html HTTP/1.1\r\nHost: a\r\n\r\n', 80)):
+        src, dst = fw.addrs(False)
+        for cut in (8, 16, 24):
+            whole, whole2 = lib.udp(1111, dp, pl, src=src, dst=dst), lib.udp(2222, dp, pl, src=src, dst=dst)
+            if len(whole) <= cut:
+                continue
+            fr = lambda l4part, ff: eth(fw.mac, fw.cl_mac, 0x0800, ipv4(src, dst, 17, l4part, flags_frag=ff, ident=0x0c08))
+            probe = fr(whole[cut:], cut // 8)
+            a1, b1 = fr(whole[:cut], 0x2000), fr(whole2[:cut], 0x2000)
+            ids = []
+            for vh in ([], [a1], [a1, b1], [b1], [b1, a1], [fr(whole, 0)]):
+                cases.append({'ops': [fwcfg, ('X',)] + [('F', x) for x in vh] + [('F', probe)], 'tags': ['stateless-probe', 'probe:last-fragment']})
+                ids.append(len(cases) - 1)
+            groups.append((ids, probe, fwcfg))
     # every variant in a fresh implementation process: state kept outside the connection table (which `X` cannot reset) would
     # otherwise leak from one variant into the next and make all of them agree
     run_cases(cases, isolate=True)
